@@ -41,6 +41,12 @@ GENERATED = {'quick': 720, 'thorough': 40000}
 def analyse(desc, order, child_edges=None):
     from maltoolbox.attackgraph.analyzers.apriori import calculate_viability_and_necessity
     g, objs = agraph.build(desc, order=order, child_orders=child_edges)
+    if desc.get('attackers'):
+        # attackers hold steps before the analysis runs: the labelling depends on the graph only
+        from maltoolbox.attackgraph import Attacker
+        for k, reached in enumerate(desc['attackers']):
+            g.add_attacker(Attacker(name='a%d' % k, entry_points=[], reached_attack_steps=[]),
+                           reached_attack_steps=[objs[i % len(objs)].id for i in reached])
     calculate_viability_and_necessity(g)
     return [(bool(o.is_viable), bool(o.is_necessary)) for o in objs], g, objs
 
@@ -240,6 +246,9 @@ def run(rng, res, tier, shard, nshards):
                     edges.append([a, b])
             desc = agraph.desc_from_kinds(kinds, edges)
             res.count('class:chain-longer-than-200')
+        if rng.random() < 0.3:
+            desc['attackers'] = [[rng.randrange(1000) for _ in range(rng.randint(1, 6))] for _ in range(rng.randint(1, 3))]
+            res.count('class:attackers-hold-steps-before-the-analysis')
         orders = [list(range(size))]
         for _k in range(5):
             o = list(range(size))
@@ -257,7 +266,9 @@ def run(rng, res, tier, shard, nshards):
     for _ in range(GENERATED[tier] // nshards):
         if not budget.more():
             break
-        case = gen_case(rng, Cfg(max_depth=2, max_assets=4), MCfg(attackers=0.0, max_assets=5), corelang_share=0.04)
+        case = gen_case(rng, Cfg(max_depth=2, max_assets=4), MCfg(attackers=0.5, max_assets=5), corelang_share=0.04)
+        case['edit_after_generation'] = rng.random() < 0.4
+        case['attach_before_analysis'] = rng.random() < 0.5
         f = check_generated(case, rng, res)
         res.case(digest([case['spec'], case['amodel']]))
         if f:
@@ -279,7 +290,7 @@ def _check_generated(case, rng, res, count=True):
         if k:
             rng.shuffle(c['amodel']['assets'])
         try:
-            built = Built(c, attackers=False, explicit_ids=True)
+            built = Built(c, attackers=True, explicit_ids=True)
             g = built.attack_graph()
         except TooExpensive:
             res.count('skipped:too-expensive')
@@ -288,6 +299,26 @@ def _check_generated(case, rng, res, count=True):
             return ('build:raised-%s' % type(exc).__name__, 'building a generated case raised %r' % (exc,))
         nodes = list(g.nodes)
         idx = {id(n): i for i, n in enumerate(nodes)}
+        if k == 1 and case.get('edit_after_generation'):
+            # the model is edited after the graph was generated: the analysis labels the GRAPH (node.defense_status)
+            for a in built.model.assets:
+                for dname in built.lang.defenses(str(a.type)):
+                    setattr(a, dname, 1.0 - float(getattr(a, dname)) if float(getattr(a, dname)) in (0.0, 1.0) else 1.0)
+            if count:
+                res.count('class:model-edited-between-generation-and-analysis')
+            built.attack_graph() if rng.random() < 0.3 else None      # a newer graph of the edited model exists as well
+        if k == 2 and case.get('edit_after_generation'):
+            # statuses set on the nodes directly (the model says something else)
+            for n in nodes:
+                if n.type == 'defense' and rng.random() < 0.5:
+                    n.defense_status = rng.choice([0.0, 1.0, 0.5])
+            if count:
+                res.count('class:node-status-set-directly-on-a-generated-graph')
+        if case.get('attach_before_analysis'):
+            try:
+                g.attach_attackers()
+            except Exception:
+                pass
         desc_nodes = [{'type': n.type, 'defense_status': None if n.defense_status is None else float(n.defense_status),
                        'existence_status': n.existence_status, 'ttc': n.ttc} for n in nodes]
         ps = [[idx[id(p)] for p in {id(p): p for p in n.parents}.values()] for n in nodes]
@@ -307,7 +338,7 @@ def _check_generated(case, rng, res, count=True):
             return ('apriori.%s:%s-node-generated-graph' % (which, nodes[i].type),
                     'generated graph: node %s labelled %s, greatest fixed point says %s' % (nodes[i].full_name, lab[i], refs[0][i]))
         labs.append({n.full_name: l for n, l in zip(nodes, lab)})
-    if labs[0] != labs[1] or labs[0] != labs[2]:
+    if not case.get('edit_after_generation') and (labs[0] != labs[1] or labs[0] != labs[2]):
         d = [k for k in labs[0] if labs[0][k] != labs[1].get(k) or labs[0][k] != labs[2].get(k)]
         return ('apriori:labels-depend-on-asset-order', 'labels of %s depend on the order the assets were added' % d[:3])
     return None
